@@ -31,7 +31,7 @@ PROPS["C13"] = {
                    "MysyncModel/Select.lean (findMostRecentNodeAndDetectSplitbrain, detectSplitbrain)"],
     "trusted": ["T6 go-mysql library code is modelled, not verified: MysqlGTIDSet.{Contain,Equal,Update,String}, IntervalSlice.{Normalize,Contain}, ParseMysqlGTIDSet (the harness feeds the PARSED structure to the model and compares every library result too)",
                 "two-level map[uuid]map[tag] modelled as one association list keyed by (uuid, tag) (validated on tagged sets)"],
-    "rule": "all ordered pairs of GTID sets over small universes (quick: 2 keys x GNO 1-3 and 3 keys incl. a tagged one x GNO 1-2; thorough: 2x4, 3x3, 4x2) exhaustively, random gapped sets over 4 keys x GNO 1-20 with subset/superset/equal bias, random range-written sets with adjacent intervals; all pairs of interval lists over 7 (9) transaction numbers; lists of 0-5 positions (see C14). distinct = distinct input; non-trivial = both sets non-empty (lists: >= 2 positions)",
+    "rule": "all ordered pairs of GTID sets over small universes (quick: 2 keys x GNO 1-3 and 3 keys incl. a tagged one x GNO 1-2; thorough: 2x4, 3x3, 4x2) exhaustively, random gapped sets over 4 keys x GNO 1-20 with subset/superset/equal bias, random range-written sets with adjacent intervals; all pairs of interval lists over 7 (9) transaction numbers; lists of 0-5 positions (see C14). distinct = distinct input; non-trivial = both sets non-empty (lists: >= 2 positions) A disagreement between the implementation's set difference and the model's (proved to be the set difference) on a well-formed pair is reported as a violation, not only as a broken tie.",
     "exhaustive_note": "the small universes are enumerated completely; they validate the model, the unbounded claim is the theorem",
     "assumptions": ["sets are what ParseGtidSet produces (normalised, non-empty interval lists): hypothesis WF, checked on every trace record"],
     "min_lines": 20000,
@@ -94,7 +94,7 @@ PROPS["C16"] = {
                    "MysyncModel/NodeState.lean (countHANodes, countRunningHASlaves, countAliveHASlavesWithinNodes, getDubiousHAHosts)",
                    "MysyncModel/GtidParse.lean (text form of GTID sets)"],
     "trusted": ["T4 fake MySQL semantics for STOP/START REPLICA, CHANGE REPLICATION SOURCE, SHOW REPLICA STATUS", "T6 GTID text parser modelled"],
-    "rule": "findBestStreamFrom: ALL 343 stream_from maps over three cascade hosts with values in {absent, master, HA replica, c1, c2, c3, unregistered} x self x 12 (thorough 60) random health patterns (6 kinds per ancestor), plus malformed maps/cluster states; repairCascadeNode: random scenarios over replication state (running/stopped/temp error/permanent error/unknown) x current upstream x configured source incl. self and empty x ancestor health x GTID relation (behind/equal/ahead/diverged) x failing stop/change/uuid/status calls x timer. distinct = distinct record; non-trivial = configured source is set and is not the master (bsf) / some action taken (repair); plus 3000 observations of one server by the REAL getNodeState with one failing probe (error / dubious error / time-out, optionally the second ping failing too) x cascade or HA registration",
+    "rule": "findBestStreamFrom: ALL 343 stream_from maps over three cascade hosts with values in {absent, master, HA replica, c1, c2, c3, unregistered} x self x 12 (thorough 60) random health patterns (6 kinds per ancestor), plus malformed maps/cluster states; repairCascadeNode: random scenarios over replication state (running/stopped/temp error/permanent error/unknown) x current upstream x configured source incl. self and empty x ancestor health x GTID relation (behind/equal/ahead/diverged) x failing stop/change/uuid/status calls x timer. distinct = distinct record; non-trivial = configured source is set and is not the master (bsf) / some action taken (repair); plus 3000 observations of one server by the REAL getNodeState with one failing probe (error / dubious error / time-out, optionally the second ping failing too) x cascade or HA registration The topology is read through the real fetch; in a sixth of the repair runs one cascade record cannot be read (then nothing may be repaired).",
     "assumptions": ["a stream_from that names an unregistered host is a nil dereference in the code (reported under C20); theorems state the exact condition"],
     "min_lines": 10000,
     "level_text": "Theorems over the model for all finite topology maps incl. cycles and self-references: termination (fuel never runs out, pigeonhole over the map's values), never self, configured source when healthy or already streamed, nearest healthy ancestor else master, no panic when every source is registered; guarded move (fresh GTID read precedes, contained in candidate's snapshot, never when ahead/split-brained, never to itself); HA counters ignore cascade hosts. Correspondence: REAL findBestStreamFrom on all maps and REAL repairCascadeNode against fake servers.",
@@ -173,7 +173,7 @@ PROPS["C04"] = {
                    "MysyncModel/Generated/SwitchHelper.lean (regenerated)", "MysyncModel/GtidParse.lean, Gtid.lean"],
     "trusted": ["T4 fake MySQL semantics of the semi-sync variables (SET GLOBAL rpl_semi_sync_*), replication thread statements, SHOW BINARY LOGS",
                 "observer c04trace mapping statement groups to the model's call vocabulary", "interface-level fake DCS"],
-    "rule": "random transitions of a 2-6 node cluster (incl. an optional cascade replica): per replica {member or not before, semi-sync flag on/off} x situation {healthy, behind/equal/ahead, dead < delay, dead >= delay, dead without timer +- health lock, dubious, stopped, error, diverged, lost master, download lag with/without IO progress, marked for recovery} x master semi-sync state consistent or not with the old list x both adjust orders x configured count 1-3 x semi-sync off x a single failing call (9 statement kinds, either master ping) x failing publication / recovery listing. (a) and (b) are evaluated on EVERY PREFIX of the real call trace in the Lean semi-sync world (a crash point is a prefix). distinct = distinct record; non-trivial = the procedure issued at least one call",
+    "rule": "random transitions of a 2-6 node cluster (incl. an optional cascade replica): per replica {member or not before, semi-sync flag on/off} x situation {healthy, behind/equal/ahead, dead < delay, dead >= delay, dead without timer +- health lock, dubious, stopped, error, diverged, lost master, download lag with/without IO progress, marked for recovery} x master semi-sync state consistent or not with the old list x both adjust orders x configured count 1-3 x semi-sync off x a single failing call (9 statement kinds, either master ping) x failing publication / recovery listing. (a) and (b) are evaluated on EVERY PREFIX of the real call trace in the Lean semi-sync world (a crash point is a prefix). distinct = distinct record; non-trivial = the procedure issued at least one call Plus (C04-prefixed monitor \"a host marked for recovery is not left in the published list, whatever cut the iteration short\") the real switchovers of C01's harness and the repair passes of C10's harness, where a failing list update hits the marking of a stale master.",
     "assumptions": ["E1 exclusive control: only mysync changes semi-sync variables"],
     "min_lines": 2500,
     "level_text": "Theorems over the model: membership rule (who can be a member, never adds unreachable hosts, master always), download-lag gate, eviction needs a successful master ping, nothing on a failed first ping, publication last, failed enables are not published, (a)/(b) after a complete fault-free iteration (partial: (b) without data-lagging replicas). The crash-point / failed-call clause is FALSE on the pinned tree: five classes of breaker sites are proved as machine-checked witnesses in the model, reproduced on the real code by the prefix monitor, and recorded in known_findings.json (design-level, not patched). Any OTHER destruction of (a)/(b), any membership violation, any eviction without ping and any deviation of the real call trace from the model is an alarm.",
